@@ -61,6 +61,12 @@ class Unit:
             raise Undecided('%s: bad unit header: %s' % (path, e))
         self.text = txt
         m = self.meta
+        if isinstance(m.get('extract'), str):
+            # shared extraction recipe: a python literal list in a file relative to /verif
+            try:
+                m['extract'] = ast.literal_eval(open(os.path.join(VERIF, m['extract'])).read())
+            except Exception as e:
+                raise Undecided('%s: bad extract recipe %s: %s' % (path, m['extract'], e))
         self.kind = m.get('kind', 'proof')
         self.mode = m.get('mode', 'plain')
         self.tier = m.get('tier', 'quick')
@@ -155,11 +161,23 @@ def _stage_injected(unit, work, specs_key='inject'):
     overlay = os.path.join(work, 'overlay')
     os.makedirs(overlay, exist_ok=True)
     report = []
+    # mechanical C++ -> C extraction first (DESIGN 4): injections may target extracted files
+    for ex in unit.meta.get('extract', []):
+        from . import cxx2c
+        try:
+            rep = cxx2c.extract(REPO, overlay, ex)
+        except cxx2c.ExtractError as e:
+            raise Undecided('%s: extraction failed: %s' % (unit.name, e))
+        report += rep
     byfile = {}
     for sp in unit.meta.get(specs_key, []):
         byfile.setdefault(sp['file'], []).append(sp)
     for rel, specs in byfile.items():
-        src = os.path.join(REPO, rel)
+        if rel.startswith('overlay:'):
+            rel = rel[len('overlay:'):]
+            src = os.path.join(overlay, rel)
+        else:
+            src = os.path.join(REPO, rel)
         if not os.path.exists(src):
             raise Undecided('%s: source %s missing' % (unit.name, rel))
         text = open(src, errors='replace').read()
@@ -173,14 +191,6 @@ def _stage_injected(unit, work, specs_key='inject'):
         dst = os.path.join(overlay, rel)
         os.makedirs(os.path.dirname(dst), exist_ok=True)
         open(dst, 'w').write(new)
-    # mechanical C++ -> C extraction (DESIGN 4)
-    for ex in unit.meta.get('extract', []):
-        from . import cxx2c
-        try:
-            rep = cxx2c.extract(REPO, overlay, ex)
-        except cxx2c.ExtractError as e:
-            raise Undecided('%s: extraction failed: %s' % (unit.name, e))
-        report += rep
     return overlay, report
 
 
